@@ -296,6 +296,8 @@ class World(EventDispatcher):
                     del self._components[component_type]
 
             del self._entities[entity]
+            # A pending deferred deletion is fulfilled by this one
+            self._dead_entities.discard(entity)
 
         else:
             self._dead_entities.add(entity)
@@ -307,7 +309,10 @@ class World(EventDispatcher):
         the :meth:`delete_entity` method. If that method is changed,
         those changes should be duplicated here as well.
         """
-        for entity in self._dead_entities:
+        for entity in tuple(self._dead_entities):
+            # Forget the request first, so that a failure on this entity
+            # is not repeated at every following call
+            self._dead_entities.discard(entity)
 
             for component_type, component in self._entities[entity].items():
                 self._components[component_type].discard(entity)
@@ -335,8 +340,6 @@ class World(EventDispatcher):
                     self.remove_handler(component)
 
             del self._entities[entity]
-
-        self._dead_entities.clear()
 
     def remove_component(self, entity: Hashable, component_type: type[C]):
         """Remove a component from an entity, if the entity owns one.
@@ -368,6 +371,8 @@ class World(EventDispatcher):
                 # Free dict entry for an entity if empty
                 if not self._entities[entity]:
                     del self._entities[entity]
+                    # Nothing is left for a pending deferred deletion
+                    self._dead_entities.discard(entity)
 
                 if removed is not None:
                     # No need to check if it is an handler, just check
